@@ -97,7 +97,7 @@ func (c *Ctx) checkAsyncSemantics(r *Report, ro *Roles, rule string) bool {
 		n     int
 		raw   bool
 		level int64
-		size  int
+		size  int // raw: pad the payload to this size; -1: a nil slice; -2: an empty non-nil slice
 	}
 	// one scenario: a fresh logger value, lives × (submissions while the worker is held, optional racing pair, drain, Stop)
 	scenario := func(p pol, pk string, withLayout bool, extra int, stopAt string, chName string, choose func(int) int, race int) bool {
@@ -142,7 +142,9 @@ func (c *Ctx) checkAsyncSemantics(r *Report, ro *Roles, rule string) bool {
 				return TupleV{}, true
 			case "Write":
 				d := strings.Replace(bytesDesc(args[0]), `\x00`, "", 1)
-				if strings.HasPrefix(d, `"raw`) {
+				if sliceLen(args[0]) == 0 {
+					d = "rEMPTY"
+				} else if strings.HasPrefix(d, `"raw`) {
 					d = "r" + strings.TrimRight(strings.Trim(strings.TrimPrefix(d, `"raw`), `"`), `\nZ`)
 				} else {
 					d = "L" + d
@@ -230,6 +232,13 @@ func (c *Ctx) checkAsyncSemantics(r *Report, ro *Roles, rule string) bool {
 			delivered = nil
 			blockedCalls := 0
 			mkTask := func(it item) *Task {
+				if it.raw && it.size < 0 {
+					var buf AV = NilV{}
+					if it.size == -2 {
+						buf = &SliceV{B: &backing{}, Lo: 0, Hi: 0, Cap: 0}
+					}
+					return sched.Spawn(fmt.Sprintf("Write#%d(empty)", it.n), writeF(buf))
+				}
 				if it.raw {
 					payload := fmt.Sprintf("raw%d\n", it.n)
 					if it.n%10 == 9 {
@@ -318,7 +327,7 @@ func (c *Ctx) checkAsyncSemantics(r *Report, ro *Roles, rule string) bool {
 						return false
 					}
 				}
-				if !submit(true, 0, 0) {
+				if !submit(true, 0, 70000) { // a large one: a size-triggered write-through would show here
 					return false
 				}
 				sched.RunUntilQuiet([]*Task{worker}, 400)
@@ -363,7 +372,7 @@ func (c *Ctx) checkAsyncSemantics(r *Report, ro *Roles, rule string) bool {
 				okRun = submit(i%5 == 4, lvl, 0)
 			}
 			// the tail: small raw writes, then a large one, with no event in between
-			for _, sz := range []int{0, 0, 5000, 0} {
+			for _, sz := range []int{0, -1, 5000, -2} { // … and a nil and an empty payload: raw writes like any other
 				if okRun {
 					okRun = submit(true, 0, sz)
 				}
@@ -435,14 +444,25 @@ func (c *Ctx) checkAsyncSemantics(r *Report, ro *Roles, rule string) bool {
 			}
 			if race > 0 && life == 1 {
 				// with two producers racing only the counts are fixed, not which of the two late items survives or comes first
-				if n := len(kept); discarded >= 0 && int(discarded)+countDistinct(delivered) != len(submitted) {
-					fail("%s: %d submitted, %d delivered, discard counter %d: delivered + discarded ≠ submitted (%d kept by the policy)", lifeDesc, len(submitted), countDistinct(delivered), discarded, n)
+				nDel := 0 // submissions delivered: a raw write reaches both references, an event exactly one
+				for _, d := range delivered {
+					if !strings.HasPrefix(d.sink, "appender") {
+						continue
+					}
+					if !strings.HasPrefix(d.what, "r") || d.sink == "appender0" {
+						nDel++
+					}
+				}
+				if n := len(kept); discarded >= 0 && int(discarded)+nDel != len(submitted) {
+					fail("%s: %d submitted, %d delivered, discard counter %d: delivered + discarded ≠ submitted (%d kept by the policy)", lifeDesc, len(submitted), nDel, discarded, n)
 				}
 				continue
 			}
 			var want []deliv
 			for _, it := range kept {
 				switch {
+				case it.raw && it.size < 0:
+					want = append(want, deliv{"appender0", "rEMPTY"}, deliv{"appender1", "rEMPTY"})
 				case it.raw:
 					want = append(want, deliv{"appender0", fmt.Sprintf("r%d", it.n)}, deliv{"appender1", fmt.Sprintf("r%d", it.n)})
 				case withLayout && it.level < 400:
@@ -527,15 +547,6 @@ outer:
 		r.OK(key, "%d scripted schedules (3 policies × logger layout on/off × 0/1/7 items beyond a capacity of %d submitted while the worker is held (events of two levels for two references, raw writes whose buffer the caller overwrites afterwards, a 5000-byte write after small ones) × Stop on a drained / full buffer × both choices where a select has several ready cases × two lives of the same value; plus two producers racing on the full buffer with the first interrupted after 1–6 channel operations): Start launches one worker; no producer call waits except under Block; delivered + counted-as-discarded = submitted, each once; delivery order is submission order; Discard drops the arriving items, DiscardOldest the oldest queued ones, Block none; Stop returns after everything accepted was delivered and the worker has finished", runs, capN)
 	}
 	return okAll
-}
-
-func countDistinct[T comparable](xs []T) int {
-	// deliveries of one raw write go to two references: count submissions, i.e. distinct payloads
-	seen := map[any]bool{}
-	for _, x := range xs {
-		seen[fmt.Sprint(any(x))[strings.Index(fmt.Sprint(any(x)), " ")+1:]] = true
-	}
-	return len(seen)
 }
 
 func firstDeliv[T any](xs []T, n int) []T {
